@@ -605,8 +605,8 @@ def _sx_contains(self, item, container):
             if bool(r):
                 return True
         return False
-    if isinstance(item, (BStr, Rope)) and isinstance(container, (dict, set, frozenset)):
-        for c in container:
+    if isinstance(item, (BStr, Rope)) and not isinstance(container, (str, BStr, Rope)):
+        for c in container:        # dict / set / mappingproxy / any iterable container: hashing is useless for a symbolic key
             if bool(item == c):
                 return True
         return False
